@@ -118,6 +118,15 @@ class ImportConverter:
                     )
                     if module.module is not None and submodule != relative_import.importee():
                         new_imports.append(AbsoluteImport(module_name, submodule))
+                    elif (
+                        module.module is None
+                        and all_internal_modules
+                        and relative_import.importee() not in all_internal_modules
+                    ):
+                        # 'from . import n' with n a function/class of the package, not a submodule:
+                        # like 'from package import n' this is an import of the package itself
+                        package = relative_import.importee().rpartition(".")[0]
+                        new_imports.append(AbsoluteImport(module_name, package))
                     else:
                         new_imports.append(relative_import)
 
